@@ -46,7 +46,8 @@ def _get(V):
     if vectorized:
         job.fields["prepare"] = BoundMethod(V.cls(JOB).ns["_prepare_iter"], job)
         job.fields["process"] = BoundMethod(V.cls(JOB).ns["_process_iter"], job)
-    dcls = ClassV("SomeDriver", bases=[I.builtins["object"]])
+    # a user's driver class: a subclass of the real DriverBase (whatever class-level attributes DriverBase itself declares are visible)
+    dcls = ClassV("SomeDriver", bases=[V.cls(DRV)])
     dcls.compute_mro()
     # the driver class may carry class-level defaults (shared by all its instances): they are merged, never modified
     cls_env = V.choose(["none", "class-level-envars"], "class-environment")
